@@ -20,7 +20,7 @@ RULE = ("(1) Version order: firmware triples a.b.c with multi-digit components a
         "after a garbage line, non-EBB chatter, silent) x firmware version x port open ok / raising x a "
         "SerialException-family fault at any probe write or read x port lookup (first board, by name, not found); "
         "True with no error <=> EBB with version >= 3.0.2 and nothing raised; otherwise False with an error "
-        "recorded, nothing written but 'v\\r' (at most twice), and a following request writes nothing and returns "
+        "recorded, nothing written but version probes ('v' / 'V'), and a following request writes nothing and returns "
         "its failure value. (3) Legacy gates (servo_timeout 2.6.0, queryVoltage 2.2.3, query_nickname / "
         "write_nickname / reboot 2.5.5) on a legacy board stub: the gated command is written <=> the reported "
         "version >= threshold, and never to a silent or unidentifiable device - also when another board with a "
@@ -102,6 +102,14 @@ def body_order(ctx, case):
 
 
 # ------------------------------------------------------------------ (2) connect handshake
+PROBE_LIMIT = 8          # the statement does not fix how often the version is asked; this only stops a runaway loop
+
+
+def is_probe(data):
+    """The version query in any spelling the firmware accepts (command names are case-insensitive)."""
+    return bytes(data).strip().upper() == b"V"
+
+
 class ScriptedDevice:
     """kind: prompt | late | after_garbage | non_ebb | silent; behind it a conforming Board."""
 
@@ -217,10 +225,10 @@ def body_connect(ctx, case):
         ctx.fail("%s returned %r; expected False" % (what, got), case)
     if not obj.err or not isinstance(obj.err, str):
         ctx.fail("%s returned False without recording an error (err=%r)" % (what, obj.err), case)
-    bad = [w for w in port.writes if w != b"v\r"]
-    if bad or len(port.writes) > 2:
-        ctx.fail("%s: the unsupported device received %r; only the version probe 'v\\r' (at most twice) is "
-                 "allowed" % (what, port.writes), case)
+    bad = [w for w in port.writes if not is_probe(w)]
+    if bad or len(port.writes) > PROBE_LIMIT:
+        ctx.fail("%s: the unsupported device received %r; nothing beyond the version probe is allowed"
+                 % (what, port.writes), case)
     if not found and factory.opened:
         ctx.fail("%s: no matching port, yet %r was opened" % (what, factory.opened), case)
     # the caller retries against the same refused device: still never "True with no error", still only probes
@@ -234,8 +242,8 @@ def body_connect(ctx, case):
                 ctx.fail("%s; retry %d raised %s: %s" % (what, attempt + 1, type(exc).__name__, exc), case)
         if again is True and obj.err is None and not (is_ebb and supported):
             ctx.fail("%s was refused, but retry %d returned True with no error recorded" % (what, attempt + 1), case)
-        bad = [w for w in port.writes if w != b"v\r"]
-        if not (is_ebb and supported) and (bad or len(port.writes) > 2 * (attempt + 2)):
+        bad = [w for w in port.writes if not is_probe(w)]
+        if not (is_ebb and supported) and (bad or len(port.writes) > PROBE_LIMIT * (attempt + 2)):
             ctx.fail("%s; after retry %d the unsupported device had received %r" % (what, attempt + 1, port.writes),
                      case)
     if retries:
